@@ -5,6 +5,7 @@ CONSTANTS
   Builder = "new"
   ExcludeTouch = TRUE
   U = 1
+  EmitOn = FALSE
   TruncEnd = FALSE
   ExcludeZeroPairs = FALSE
 INVARIANT TotalOrder
